@@ -554,9 +554,3 @@ Example C03_checker_flags :
       mkCase (KNetmap, "newEpoch", 1%nat) (mkWCtx [exCommittee] []) (exArgs []) OHaltOther false ]
   = [ Some VUnmetEffect; None; None; Some VUnmodelledEffect; None; Some VMetRefused; Some VUnmetNotRefused ].
 Proof. vm_compute. reflexivity. Qed.
-
-(** Source constants.  The literals of the model behind this property are tied to the
-    constants of /repo's Go sources (Gen/Params.v, regenerated from the working tree on
-    every run) in Proofs/TiesWitness.v; requiring that file here makes the obligations of this
-    property fail when a constant it depends on is edited in the source. *)
-Require Verif.Proofs.TiesWitness.
